@@ -788,6 +788,8 @@ type pctx struct {
 	K     string // decl assign param variadic return garr gmap cond range target assigncall
 	T     *sty   // expected type; for target: the ROOT variable's type
 	Steps []tstepG
+	More  []*pexpr // rangemore: the further operands of the range clause
+	NoVar bool     // rangemore: `for range …` without loop variable
 }
 
 // tstepG: one step of an assignment target chain
@@ -813,6 +815,13 @@ func (st tstepG) sx() string {
 }
 
 func (c pctx) sx() string {
+	if c.K == "rangemore" {
+		parts := make([]string, len(c.More))
+		for i, e := range c.More {
+			parts[i] = e.sx()
+		}
+		return "(rangemore (" + strings.Join(parts, " ") + "))"
+	}
 	if c.K == "target" {
 		parts := make([]string, len(c.Steps))
 		for i, st := range c.Steps {
@@ -884,6 +893,17 @@ func c04Program(c pctx, e *pexpr) string {
 		stmt = append(stmt, "if "+src, "    print \"taken\"", "end")
 	case "range":
 		stmt = append(stmt, "for x := range "+src, "    print (typeof x)", "end")
+	case "rangemore":
+		ops := src
+		for _, m := range c.More {
+			ops += " " + pb.render(m)
+		}
+		head = append([]string{}, pb.pre...)
+		if c.NoVar {
+			stmt = append(stmt, "for range "+ops, "    print \"<evy run-time: not observed>\"", "end")
+		} else {
+			stmt = append(stmt, "for x := range "+ops, "    print (typeof x)", "end")
+		}
 	case "assigncall":
 		head = append(head, "func ft:"+c.T.src(), "    return "+zeroLit(c.T), "end")
 		stmt = append(stmt, "ft = "+src)
@@ -1132,7 +1152,7 @@ func (c c04Cell) id() string { return c.Ctx.sx() + " " + c.Form.E.sx() }
 
 func c04ExpectedTypeof(c pctx, static, shown string) string {
 	switch c.K {
-	case "decl", "range":
+	case "decl", "range", "rangemore":
 		return static
 	case "assign", "param", "variadic", "return", "target":
 		if static == "any" {
@@ -1173,7 +1193,7 @@ func c04DoCell(r *Result, model, spec *Model, cell c04Cell, exhaustiveKind strin
 	if mverdict == "accept" {
 		mtypeof = c04ExpectedTypeof(cell.Ctx, mv.L[1].S, mv.L[2].S)
 	}
-	unobservable := strings.HasPrefix(impl.Typeof, "<evy run-time") || (impl.Typeof == "<no output>" && (cell.Ctx.K == "range" || hasLoopVar(cell.Form.E)))
+	unobservable := strings.HasPrefix(impl.Typeof, "<evy run-time") || (impl.Typeof == "<no output>" && (cell.Ctx.K == "range" || cell.Ctx.K == "rangemore" || hasLoopVar(cell.Form.E)))
 	untracked := unobservable || (mverdict == "accept" && mtypeof == "any")
 	if impl.V != mverdict {
 		c04Violate(r, Violation{Kind: "correspondence", Key: "program-verdict-" + cell.Ctx.K,
@@ -1402,6 +1422,7 @@ func runC04(cfg Config, r *Result) {
 	c04Programs(cfg, r, model, spec)
 	c04Targets(cfg, r, model, spec)
 	c04LoopVars(cfg, r, model, spec)
+	c04RangeForms(cfg, r, model, spec)
 	r.Exhaustive = true
 	ks := make([]string, 0, len(c04Keys))
 	for k, n := range c04Keys {
@@ -1701,4 +1722,51 @@ func c04LoopVars(cfg Config, r *Result, model, spec *Model) {
 		}
 	}
 	r.Note("loop variables: %d iterable types (string, num, every array and map type of depth <= %d), ranged over as a variable and as a constant literal; the loop variable used as lv, [lv], {k:lv}, [lv sibling], [sibling lv], lv+lit, lit+lv, [lit]+[lv] in decl and assign/param(/variadic/return) against the element type, any, []any, {}any, [][]any, []{}any, {}[]any, []elem, {}elem = %d programs, enumerated completely", len(iterables), cfg.N(2, 3), n)
+}
+
+// ---------------------------------------------------------------- numeric range forms
+
+// c04RangeForms: for [x :=] range e1 [e2 [e3 [e4]]] — every operand position crossed with every type of
+// depth <= 1 as a variable, and with the constants, with and without loop variable
+func c04RangeForms(cfg Config, r *Result, model, spec *Model) {
+	var operands []valueForm
+	for _, t := range styClosed(1) {
+		operands = append(operands, valueForm{"variable", evar(t), true})
+	}
+	operands = append(operands, valueForm{"constant", lit("n"), true}, valueForm{"constant", lit("s"), true},
+		valueForm{"constant", lit("b"), true}, valueForm{"constant", lit("arr", lit("n")), true},
+		valueForm{"empty", lit("arr"), true}, valueForm{"empty", lit("map"), true})
+	num := []*pexpr{lit("n"), evar(c04tNum)}
+	n := 0
+	run := func(first valueForm, more []*pexpr, label string) {
+		for _, novar := range []bool{false, true} {
+			f := first
+			f.Kind = "range-" + label + ":" + first.Kind
+			c04DoCell(r, model, spec, c04Cell{Ctx: pctx{K: "rangemore", More: more, NoVar: novar}, Form: f}, "")
+			n++
+		}
+	}
+	for _, o := range operands {
+		// one operand
+		run(o, nil, "1")
+		// two operands: o in position 1 or 2, the other a num; and both arbitrary
+		for _, k := range num {
+			run(o, []*pexpr{k}, "2-pos1")
+			run(valueForm{o.Kind, k, true}, []*pexpr{o.E}, "2-pos2")
+			// three operands: o in each position
+			for _, k2 := range num {
+				run(o, []*pexpr{k, k2}, "3-pos1")
+				run(valueForm{o.Kind, k, true}, []*pexpr{o.E, k2}, "3-pos2")
+				run(valueForm{o.Kind, k, true}, []*pexpr{k2, o.E}, "3-pos3")
+			}
+			// four operands: always rejected
+			run(o, []*pexpr{k, k, k}, "4-pos1")
+			run(valueForm{o.Kind, k, true}, []*pexpr{k, k, o.E}, "4-pos4")
+		}
+		for _, o2 := range operands {
+			run(o, []*pexpr{o2.E}, "2-any")
+			run(valueForm{o.Kind, lit("n"), true}, []*pexpr{o.E, o2.E}, "3-any23")
+		}
+	}
+	r.Note("range clause: 1, 2, 3 and 4 operands; each operand position crossed with %d operand forms (a variable of every type of depth <= 1, the constants 1 \"a\" true [1], the empty literals) against num constants/variables in the other positions, all pairs in positions (1,2) and (2,3), with and without loop variable = %d programs, enumerated completely", len(operands), n)
 }
